@@ -88,8 +88,9 @@ class Case:
             _, hb, words, consts = self.dump.split(" ")
             if not recursive:       # the validator unrolls the grammar: a recursive one never ends (exponential up to its fuel)
                 L.append((("validate", "compile"), "validate %s %s %s" % (words, consts, spec)))
-            if compile_model_applies(gc):
-                L.append((("cmodel", "compile"), "compile %s" % ",".join(peggen.ptok(gc))))
+            # the compile model (Peg/Compile.lean: rule cache, keyword references, nested / recursive grammars, constants)
+            # is run on EVERY grammar; it answers "-" only for what it explicitly rejects
+            L.append((("cmodel", "compile"), "compile %s" % spec))
             for kind in ("op", "den"):
                 for e in (ENTRIES if kind == "op" and not self.noscan else ("match",)):
                     L.append(((kind, e), "%s %s %s %d %s %s %s %d %s%s" % (kind, e, hb, leak, words, consts, T, self.start, A,
@@ -326,9 +327,9 @@ def compare(case):
         diffs.append(("validate", "compile", "V1", va))
     cm = case.model.get(("cmodel", "compile"))
     if cm is not None and case.dump and case.dump.startswith("B "):
-        real_words = case.dump.split(" ")[2]
-        if cm != "W %s V1" % real_words:
-            diffs.append(("cmodel", "compile", "W %s V1" % real_words, cm))
+        # word for word: has_backref, bytecode, constants table; the entry rule is address 0.  "-" = rejected by the model
+        if cm != "-" and cm != case.dump + " E0":
+            diffs.append(("cmodel", "compile", cm, case.dump + " E0"))
     dn, op = case.model.get(("den", "match")), case.model.get(("op", "match"))
     if dn is not None and op is not None and dn != op and not (case.leak & 1):
         diffs.append(("den", "match", dn, op))
